@@ -19,6 +19,7 @@ import (
 	"google.golang.org/protobuf/reflect/protoreflect"
 
 	"github.com/smart-core-os/sc-golang/internal/testproto"
+	"github.com/smart-core-os/sc-golang/internal/verifhook"
 	"github.com/smart-core-os/sc-golang/pkg/resource"
 	"github.com/smart-core-os/sc-golang/verifharness/cmd/c05/mt"
 	"github.com/smart-core-os/sc-golang/verifharness/lib"
@@ -46,7 +47,14 @@ type kcase struct {
 	Options  []string `json:"read_options"`
 	Equiv    bool     `json:"no_duplicates,omitempty"` // resource.WithNoDuplicates() on the collection
 	PullID   string   `json:"pull_id"`
-	Writes   []kwrite `json:"writes"`
+	// Pending: writes made BEFORE the subscriptions open whose change is published only AFTER they are open
+	// (add/update: the writer is parked between storing its value and bus.Send, at the yield point
+	// coll.update.beforeSend / value.set.beforeSend; delete: runs to completion, it publishes under the
+	// lock).  Release: the order in which the parked writers (indices into Pending) are let go once every
+	// subscription listens — any order, so publications may overtake each other.
+	Pending []kwrite `json:"pending_writes,omitempty"`
+	Release []int    `json:"release_order,omitempty"`
+	Writes  []kwrite `json:"writes"`
 	Order    int64    `json:"model_order_seed"` // the order in which the model is told about the items
 }
 
@@ -247,6 +255,7 @@ type kout struct {
 	VRaw       []kvalue        // the changes that value published (what Set returned, when)
 	Mutated    string
 	Swapped    string
+	NotParked  int // pending writers that published without stopping at the yield point
 }
 
 func texts[T interface{ text() string }](xs []T) string {
@@ -285,6 +294,130 @@ func sentinelMsg(root string) proto.Message {
 	}
 }
 
+// parker holds writers between "value stored" and "change published": a goroutine started with start runs
+// until it reaches one of the yield points and stays there until finish.  Goroutines not started by it pass.
+type parker struct {
+	mu     sync.Mutex
+	gates  map[int64]*pgate
+	all    []*pgate
+	points map[string]bool
+}
+
+type pgate struct {
+	parked, release chan struct{}
+	done            chan error
+	held            bool // the writer reached the yield point (false: it ran to completion, the point is gone)
+	released        bool
+}
+
+func newParker(points ...string) *parker {
+	p := &parker{gates: map[int64]*pgate{}, points: map[string]bool{}}
+	for _, pt := range points {
+		p.points[pt] = true
+	}
+	verifhook.Set(func(pt string) {
+		if !p.points[pt] {
+			return
+		}
+		p.mu.Lock()
+		g := p.gates[verifhook.GoID()]
+		p.mu.Unlock()
+		if g == nil {
+			return
+		}
+		close(g.parked)
+		select {
+		case <-g.release:
+		case <-time.After(6 * waitFor):
+		}
+	})
+	return p
+}
+
+// start runs f on a new goroutine until it parks (or returns).
+func (p *parker) start(what string, f func() error) *pgate {
+	g := &pgate{parked: make(chan struct{}), release: make(chan struct{}), done: make(chan error, 1)}
+	p.mu.Lock()
+	p.all = append(p.all, g)
+	p.mu.Unlock()
+	go func() {
+		id := verifhook.GoID()
+		p.mu.Lock()
+		p.gates[id] = g
+		p.mu.Unlock()
+		err := f()
+		p.mu.Lock()
+		delete(p.gates, id)
+		p.mu.Unlock()
+		g.done <- err
+	}()
+	select {
+	case <-g.parked:
+		g.held = true
+	case err := <-g.done:
+		g.released = true
+		if err != nil {
+			panic(what + ": " + err.Error())
+		}
+	case <-time.After(waitFor):
+		panic(what + ": timed out before it published")
+	}
+	return g
+}
+
+// finish lets a parked writer publish and waits for it to return.
+func (g *pgate) finish(what string) {
+	if g.released {
+		return
+	}
+	g.released = true
+	close(g.release)
+	select {
+	case err := <-g.done:
+		if err != nil {
+			panic(what + ": " + err.Error())
+		}
+	case <-time.After(waitFor):
+		panic(what + ": timed out")
+	}
+}
+
+// close removes the controller and lets every writer still parked go (after a panic of the scenario).
+func (p *parker) close() {
+	verifhook.Set(nil)
+	p.mu.Lock()
+	defer p.mu.Unlock()
+	for _, g := range p.all {
+		if !g.released {
+			g.released = true
+			close(g.release)
+		}
+	}
+}
+
+// releaseOrder: Release if it is a permutation of the parked writes' indices, else those indices in order.
+func (c kcase) releaseOrder() []int {
+	var idx []int
+	seen := map[int]bool{}
+	for i, w := range c.Pending {
+		if w.Op != "delete" {
+			idx = append(idx, i)
+		}
+	}
+	ok := len(c.Release) == len(idx)
+	for _, i := range c.Release {
+		if i < 0 || i >= len(c.Pending) || c.Pending[i].Op == "delete" || seen[i] {
+			ok = false
+			break
+		}
+		seen[i] = true
+	}
+	if ok {
+		return c.Release
+	}
+	return idx
+}
+
 func (c kcase) run() kout {
 	var out kout
 	panicked, pmsg := lib.Catch(func() {
@@ -304,6 +437,29 @@ func (c kcase) run() kout {
 		for _, it := range c.Items {
 			if err := keep(col.Add(it.ID, decodeRoot(c.Root, it.Hex))); err != nil {
 				panic(err)
+			}
+		}
+		// writes that have stored their value but not published their change when the subscriptions open
+		var park *parker
+		gates := map[int]*pgate{}
+		if len(c.Pending) > 0 {
+			park = newParker("coll.update.beforeSend", "value.set.beforeSend")
+			defer park.close()
+			for i, w := range c.Pending {
+				w := w
+				switch w.Op {
+				case "add":
+					gates[i] = park.start("pending Add "+w.ID, func() error { return keep(col.Add(w.ID, decodeRoot(c.Root, w.Hex))) })
+				case "update":
+					gates[i] = park.start("pending Update "+w.ID, func() error { return keep(col.Update(w.ID, decodeRoot(c.Root, w.Hex))) })
+				case "delete":
+					step("Delete "+w.ID, func() error { _, err := col.Delete(w.ID); return err })
+				default:
+					panic("pending write " + w.Op)
+				}
+				if g := gates[i]; g != nil && !g.held {
+					out.NotParked++
+				}
 			}
 		}
 		opts := c.buildOpts(append(append([]string{}, c.Options...), "B1"))
@@ -356,6 +512,10 @@ func (c kcase) run() kout {
 		pullC(&out.S2, col.Pull(ctx, optsNoMask...))
 		pullV(&out.P1, col.PullID(ctx, c.PullID, opts...))
 		pullV(&out.P2, col.PullID(ctx, c.PullID, optsNoMask...))
+		// every subscription listens (Pull registers with the bus before it returns): the parked writers publish
+		for _, i := range c.releaseOrder() {
+			gates[i].finish("pending " + c.Pending[i].Op + " " + c.Pending[i].ID)
+		}
 		for _, w := range c.Writes {
 			w := w
 			switch w.Op {
@@ -387,10 +547,43 @@ func (c kcase) run() kout {
 			vopts = append(vopts, resource.WithNoDuplicates())
 		}
 		val := resource.NewValue(vopts...)
+		tick := int64(0)
+		vgates := map[int]*pgate{}
+		vtick := map[int]int64{}
+		vset := map[int]proto.Message{}
+		for i, w := range c.Pending {
+			if w.Op == "delete" {
+				continue
+			}
+			w := w
+			tick++
+			vclock.set(tick)
+			vtick[i] = tick
+			i := i
+			vgates[i] = park.start("pending Set", func() error {
+				nv, err := val.Set(decodeRoot(c.Root, w.Hex))
+				if err == nil {
+					stored = append(stored, kept{nv, proto.Clone(nv)})
+					vset[i] = proto.Clone(nv)
+				}
+				return err
+			})
+		}
 		pullV(&out.V0, val.Pull(ctx, resource.WithBackpressure(true)))
 		pullV(&out.V1, val.Pull(ctx, opts...))
 		pullV(&out.V2, val.Pull(ctx, optsNoMask...))
-		tick := int64(0)
+		for _, i := range c.releaseOrder() {
+			if !vgates[i].held {
+				out.NotParked++
+				continue // published before anybody listened
+			}
+			vclock.set(vtick[i])
+			vgates[i].finish("pending Set")
+			out.VRaw = append(out.VRaw, kvalue{Time: vtick[i], Val: vset[i]})
+		}
+		if park != nil {
+			park.close()
+		}
 		for _, w := range c.Writes {
 			if w.Op == "delete" {
 				continue
@@ -500,6 +693,117 @@ func (c kcase) modelLines(out kout) []string {
 		strings.TrimSpace(fmt.Sprintf("cread %d %s list %s %d %s", ty, c.enc(), eq, n, strings.Join(items, " "))),
 		mk("pull"), mk("pullid=" + c.PullID), vl,
 	}
+}
+
+// schedLines: the whole case as a schedule of write halves on an empty collection (ScVerif/C06/Sched.lean):
+// the model is told only what the harness DID — it computes the store the subscriptions find, the changes
+// published afterwards (kinds, old values, times of the ticking clock) and what each read delivers.
+func (c kcase) schedLines() []string {
+	var steps []string
+	n := 0
+	put := func(w kwrite, publish bool) {
+		switch w.Op {
+		case "add":
+			steps = append(steps, "a", w.ID, w.Text)
+		case "update":
+			steps = append(steps, "u", w.ID, w.Text)
+		case "delete":
+			steps = append(steps, "d", w.ID)
+			n++
+			return
+		}
+		n++
+		if publish {
+			steps = append(steps, "p", "0")
+			n++
+		}
+	}
+	for _, it := range c.Items {
+		put(kwrite{"add", it.ID, it.Hex, it.Text}, true)
+	}
+	var parked []int
+	for i, w := range c.Pending {
+		put(w, false)
+		if w.Op != "delete" {
+			parked = append(parked, i)
+		}
+	}
+	npre := n
+	for _, i := range c.releaseOrder() {
+		for k, j := range parked {
+			if j == i {
+				steps = append(steps, "p", fmt.Sprint(k))
+				parked = append(parked[:k:k], parked[k+1:]...)
+				break
+			}
+		}
+	}
+	for _, w := range c.Writes {
+		put(w, true)
+	}
+	ty := schema.ID(rootByName(c.Root).MD())
+	eq := "-"
+	if c.Equiv {
+		eq = "E"
+	}
+	tail := strings.Join(steps, " ")
+	mk := func(o, mode string) string {
+		return strings.TrimSpace(fmt.Sprintf("csched %d %s %s %s %d %s", ty, o, mode, eq, npre, tail))
+	}
+	o := "B1"
+	if len(c.Options) > 0 {
+		o = c.enc() + ",B1"
+	}
+	// the resource.Value given the same messages: Set halves with the times the harness shows on its clock
+	var vsteps []string
+	init := msgText(rootByName(c.Root).New())
+	if len(c.Items) > 0 {
+		init = c.Items[0].Text
+	}
+	tick, vpre := 0, 0
+	parked = parked[:0]
+	vt := map[int]int{}
+	for i, w := range c.Pending {
+		if w.Op != "delete" {
+			tick++
+			vt[i] = tick
+			vsteps = append(vsteps, "s", w.Text, fmt.Sprint(tick))
+			parked = append(parked, i)
+			vpre++
+		}
+	}
+	for _, i := range c.releaseOrder() {
+		for k, j := range parked {
+			if j == i {
+				vsteps = append(vsteps, "p", fmt.Sprint(k))
+				parked = append(parked[:k:k], parked[k+1:]...)
+				break
+			}
+		}
+	}
+	for _, w := range c.Writes {
+		if w.Op != "delete" {
+			tick++
+			vsteps = append(vsteps, "s", w.Text, fmt.Sprint(tick), "p", "0")
+		}
+	}
+	vl := strings.TrimSpace(fmt.Sprintf("vsched %d %s %s %s %d %s", ty, o, eq, init, vpre, strings.Join(vsteps, " ")))
+	return []string{mk(c.enc(), "list"), mk(o, "pull"), mk(o, "pullid="+c.PullID), mk("B1", "pull"), vl}
+}
+
+func (c kcase) schedText(out kout) string {
+	if out.Panic != "" {
+		return "panic: " + out.Panic
+	}
+	l := "-"
+	if len(out.List) > 0 {
+		var xs []string
+		for _, m := range out.List {
+			xs = append(xs, msgText(m))
+		}
+		l = strings.Join(xs, " ")
+	}
+	return "list: " + l + " ; pull: " + texts(out.S1) + " ; pullid: " + texts(out.P1) + " ; plain: " + texts(out.S0) + " ; value: " + texts(out.V1)
 }
 
 func (c kcase) codeText(out kout) string {
@@ -753,24 +1057,49 @@ func genCollCase(g *mt.Gen) kcase {
 	if len(c.Items) > 0 && g.R.Intn(3) != 0 {
 		c.PullID = c.Items[g.R.Intn(len(c.Items))].ID
 	}
-	for n := g.R.Intn(6); n > 0; n-- {
-		id := collIDs[g.R.Intn(len(collIDs))]
-		if g.R.Intn(2) == 0 {
-			id = c.PullID
+	genWrites := func(n int, hot string) []kwrite {
+		var ws []kwrite
+		for ; n > 0; n-- {
+			id := collIDs[g.R.Intn(len(collIDs))]
+			if g.R.Intn(2) == 0 {
+				id = hot
+			}
+			switch {
+			case !present[id]:
+				m := genMsg()
+				ws = append(ws, kwrite{"add", id, mt.EncodeMsg(m), mt.CanonMsg(m)})
+				present[id] = true
+			case g.R.Intn(4) == 0:
+				ws = append(ws, kwrite{Op: "delete", ID: id})
+				present[id] = false
+			default:
+				m := genMsg()
+				ws = append(ws, kwrite{"update", id, mt.EncodeMsg(m), mt.CanonMsg(m)})
+			}
 		}
-		switch {
-		case !present[id]:
-			m := genMsg()
-			c.Writes = append(c.Writes, kwrite{"add", id, mt.EncodeMsg(m), mt.CanonMsg(m)})
-			present[id] = true
-		case g.R.Intn(4) == 0:
-			c.Writes = append(c.Writes, kwrite{Op: "delete", ID: id})
-			present[id] = false
-		default:
-			m := genMsg()
-			c.Writes = append(c.Writes, kwrite{"update", id, mt.EncodeMsg(m), mt.CanonMsg(m)})
-		}
+		return ws
 	}
+	// a third of the cases: 1-3 writes whose change is still unpublished when the subscriptions open (mostly
+	// on one id, so that the subscriber's seed and the changes it is sent afterwards do not form a chain),
+	// published in storage order or in another one
+	if g.R.Intn(3) == 0 {
+		hot := c.PullID
+		if len(c.Items) > 0 && g.R.Intn(2) == 0 {
+			hot = c.Items[g.R.Intn(len(c.Items))].ID
+		}
+		c.Pending = genWrites(1+g.R.Intn(3), hot)
+		var idx []int
+		for i, w := range c.Pending {
+			if w.Op != "delete" {
+				idx = append(idx, i)
+			}
+		}
+		if g.R.Intn(2) == 0 {
+			g.R.Shuffle(len(idx), func(i, j int) { idx[i], idx[j] = idx[j], idx[i] })
+		}
+		c.Release = idx
+	}
+	c.Writes = genWrites(g.R.Intn(6), c.PullID)
 	return c
 }
 
@@ -794,16 +1123,38 @@ func seededCollCases() []kcase {
 			out = append(out, kcase{Root: "TestAllTypes", CollRead: true, Items: items, Options: os, PullID: id, Writes: writes, Order: 2})
 		}
 	}
+	// subscriptions opened between a commit and its publication: the seed already holds the value the first
+	// change reports as NEW; two publications overtaking each other; an item deleted / added meanwhile
+	upd := func(id, h, t string) kwrite { return kwrite{"update", id, h, t} }
+	for _, os := range [][]string{
+		{"M/default_string"}, {"I4", "M/default_string"}, {"M/default_foreign_message.d", "I7"}, {"I5", "M/default_int32"}, {"M/default_string", "U1"}, {},
+	} {
+		for _, p := range []struct {
+			pend []kwrite
+			rel  []int
+			then []kwrite
+		}{
+			{[]kwrite{upd("x", h2, t2)}, []int{0}, writes[:2]},
+			{[]kwrite{upd("x", h2, t2), upd("x", h3, t3)}, []int{1, 0}, writes[:2]},
+			{[]kwrite{upd("x", h2, t2), upd("x", h3, t3), upd("x", h1, t1)}, []int{2, 0, 1}, writes[:2]},
+			{[]kwrite{upd("x", h2, t2), {Op: "delete", ID: "x"}}, []int{0}, []kwrite{{"add", "x", h3, t3}, writes[1]}},
+			{[]kwrite{{"add", "a", h3, t3}, upd("a", h1, t1)}, []int{0, 1}, writes[:2]},
+		} {
+			out = append(out, kcase{Root: "TestAllTypes", CollRead: true, Items: items[:1], Options: os, PullID: "x", Pending: p.pend, Release: p.rel, Order: 3})
+			out = append(out, kcase{Root: "TestAllTypes", CollRead: true, Items: items, Options: os, PullID: "x", Pending: p.pend, Release: p.rel, Writes: p.then, Order: 4})
+		}
+	}
 	return out
 }
 
-func runCollCases(cases []kcase, tie *lib.Tie, mon *lib.Monitor, drv *lib.Driver) {
+func runCollCases(cases []kcase, tie, stie *lib.Tie, mon *lib.Monitor, drv *lib.Driver) {
 	outs := make([]kout, len(cases))
 	var lines []string
 	for i, c := range cases {
 		outs[i] = c.run()
 		if outs[i].Panic == "" {
 			lines = append(lines, c.modelLines(outs[i])...)
+			lines = append(lines, c.schedLines()...)
 		}
 	}
 	ans, err := drv.Batch(lines)
@@ -817,7 +1168,14 @@ func runCollCases(cases []kcase, tie *lib.Tie, mon *lib.Monitor, drv *lib.Driver
 		model := "no panic"
 		if out.Panic == "" {
 			model = "list: " + ans[k] + " ; pull: " + ans[k+1] + " ; pullid: " + ans[k+2] + " ; value: " + ans[k+3]
-			k += 4
+			smodel := "list: " + ans[k+4] + " ; pull: " + ans[k+5] + " ; pullid: " + ans[k+6] + " ; plain: " + ans[k+7] + " ; value: " + ans[k+8]
+			k += 9
+			if out.NotParked == 0 {
+				stie.Record(c.key(), len(c.Pending) > 0, c, smodel, c.schedText(out))
+				stie.Count(fmt.Sprintf("parked-writers:%d", len(c.releaseOrder())))
+			} else {
+				stie.Count("skipped:a-writer-did-not-stop-at-the-yield-point")
+			}
 		}
 		nontrivial := !c.effMask().Nil && c.effInclude() != nil
 		tie.Record(c.key(), nontrivial, c, model, c.codeText(out))
@@ -826,6 +1184,30 @@ func runCollCases(cases []kcase, tie *lib.Tie, mon *lib.Monitor, drv *lib.Driver
 		tie.Count(fmt.Sprintf("mask:%v include:%v", !c.effMask().Nil, c.effInclude() != nil))
 		if c.Equiv {
 			tie.Count("collection:no-duplicates")
+		}
+		if len(c.Pending) > 0 {
+			tie.Count(fmt.Sprintf("pending:%d", len(c.Pending)))
+			inOrder := true
+			for i, j := range c.releaseOrder() {
+				if i > 0 && j < c.releaseOrder()[i-1] {
+					inOrder = false
+				}
+			}
+			if !inOrder {
+				tie.Count("pending:published-out-of-storage-order")
+			}
+			if out.NotParked > 0 {
+				tie.Count("pending:writer-did-not-stop-at-the-yield-point")
+			}
+			// the subscriber's seed / previous change for an id does not hold what the next change reports as old
+			held := map[string]string{}
+			for _, k := range out.S0 {
+				if h, ok := held[k.ID]; ok && !k.Seed && msgText(k.Old) != h {
+					tie.Count("pending:change-does-not-chain")
+					break
+				}
+				held[k.ID] = msgText(k.New)
+			}
 		}
 		for _, k := range out.S1 {
 			if k.Seed {
@@ -874,6 +1256,6 @@ func replayCollection(b []byte) int {
 	m := lib.NewMonitor("replay", "")
 	out := c.run()
 	c.monitor(m, out)
-	fmt.Printf("replay collection read options=%s pull_id=%s items=%d writes=%d\n  plain subscriber: %s\n  with the options: %s\n", c.enc(), c.PullID, len(c.Items), len(c.Writes), texts(out.S0), c.codeText(out))
+	fmt.Printf("replay collection read options=%s pull_id=%s items=%d pending=%d release=%v writes=%d\n  plain subscriber: %s\n  with the options: %s\n", c.enc(), c.PullID, len(c.Items), len(c.Pending), c.releaseOrder(), len(c.Writes), texts(out.S0), c.codeText(out))
 	return reportReplay(m)
 }
